@@ -9,5 +9,5 @@ trap 'rm -rf "$D"' EXIT
 rsync -a --exclude .git --exclude '*.pyc' --exclude __pycache__ /repo/ "$D/"
 (cd "$D" && patch -p1 -s < "$PATCH")
 set +e
-VERIF_REPO="$D" "$HERE/check" "$CHECK" --tier "$TIER" --seed "$SEED" | grep -v '^KNOWN-FINDING' | tail -4
+VERIF_OUT="$D/.verif_out" VERIF_REPO="$D" "$HERE/check" "$CHECK" --tier "$TIER" --seed "$SEED" | grep -v '^KNOWN-FINDING' | tail -4
 RC=$?
